@@ -773,7 +773,10 @@ def r5_group_buffers(ctx):
     blockdefs = [d for d in rd.defs if graph.in_loop_body(d.node, head.ast) and isinstance(d.value, ast.ListComp) and _mentions(d.value, grp)]
     need(len(blockdefs) == 1, 'C13.R5: block = [t[1] for t in group] not found')
     block = blockdefs[0].name
-    PEND = 'prev_source'
+    # the pending source block is whatever local receives the block itself inside the loop (`prev_source = block` on the pinned tree)
+    pend_names = sorted({d.name for d in rd.defs if graph.in_loop_body(d.node, head.ast) and d.kind == 'assign' and is_name(d.value, block)})
+    need(len(pend_names) == 1, 'C13.R5: the variable that holds the pending source block was not recognised: %s' % pend_names)
+    PEND = pend_names[0]
     place_text = [n for n in g.nodes if not n.dup and graph.in_loop_body(n, head.ast) and any(isinstance(c.func, ast.Attribute) and c.func.attr == 'append' and c.args and is_name(c.args[0], block) for c in node_calls(n))]
     place_want = [n for n in g.nodes if not n.dup and graph.in_loop_body(n, head.ast) and any(isinstance(c.func, ast.Attribute) and c.func.attr == 'append' and c.args and isinstance(c.args[0], ast.Tuple) and
                                                                                              len(c.args[0].elts) == 2 and is_name(c.args[0].elts[0], PEND) and is_name(c.args[0].elts[1], block) for c in node_calls(n))]
